@@ -1,6 +1,7 @@
 import FastorModel.Core.Writes
 import FastorModel.Core.Loop
 import FastorModel.Model.Expr
+import FastorModel.Model.Views
 /-
   Model of index-tensor views and boolean-mask views (C19).
 
@@ -168,6 +169,22 @@ def scatter (vea : Bool) (ofInt : Int → α) (env : Nat → Nat → α) (it : N
 def filterInstrs (ofInt : Int → α) (env : Nat → Nat → α) (it : Nat → Nat) (mask : Nat → Bool) (rhs : Src) (n : Nat) :
     List (Nat × α) :=
   (forRange 0 n 1).flatMap fun i => if mask i then [(i, evalS ofInt env it mask rhs i)] else []
+
+/-! ## §5 an index / mask view inside a 2-D expression evaluated by the two-index constructor loop -/
+
+/-- `store` of the lanes of one vector at destination position `dst` -/
+def laneW {β : Type} (dst : Nat) (xs : List β) : List (Nat × β) :=
+  (xs.zip (List.range xs.length)).map fun ol => (dst + ol.2, ol.1)
+
+/-- the two-index constructor loop of `tensor/SpecialisedConstructors.h` (2-D expressions that contain a range
+    view; C04 models it for a range-view source as `Views.View.ctor2Writes`) over an arbitrary source given by its
+    two-index members `eval(i,j)` (lanes) and `eval_s(i,j)`:
+    `for i<M: for (j=0; j<ROUND_DOWN(N,V); j+=V) eval(i,j).store(&data[i*N+j]); for (; j<N; ++j) data[i*N+j] = eval_s(i,j)` -/
+def ctor2Gen {β : Type} (V M N : Nat) (vec : Nat → Nat → List β) (sc : Nat → Nat → β) : List (Nat × β) :=
+  (List.range M).flatMap fun i =>
+    let R := Views.roundDownV N V
+    (forRange 0 R V).flatMap (fun j => laneW (i * N + j) (vec i j)) ++
+    (forRange (forExit 0 R V) N 1).map (fun j => (i * N + j, sc i j))
 
 /-! ## read sets (for the correspondence only) -/
 
